@@ -217,6 +217,20 @@ def gen(repo):
     guards.append(("ws_scrape_empty_answered",
                    re.search(r"if\s+info_hashes_by_worker\s*\.is_empty\(\)", ws_conn) is not None,
                    "crates/ws/src/workers/socket/connection.rs handle_scrape_request"))
+    # ---- the watchdog at the end of each run(): scan period and the three join() arms
+    ws_lib = strip_comments(read(repo, "crates/ws/src/lib.rs"))
+    for tname, lib in (("udp", udp_lib), ("http", http_lib), ("ws", ws_lib)):
+        m = re.search(r"if\s+handle\.is_finished\(\)\s*\{(.*)\}\s*sleep\(Duration::from_secs\((\d+)\)\)", lib, flags=re.S)
+        if not m:
+            raise Missing("watchdog loop (is_finished ... sleep(Duration::from_secs(N))) not found in crates/%s/src/lib.rs" % tname)
+        body, period = m.group(1), int(m.group(2))
+        out.append("(* crates/%s/src/lib.rs run(): watchdog scan period in seconds *)" % tname)
+        out.append("Definition %s_watchdog_period : N := %d%%N." % (tname, period))
+        arms = all(re.search(p_, body, flags=re.S) for p_ in (
+            r"Ok\(Ok\(\(\)\)\)\s*=>\s*\{\s*return\s+Err\(",
+            r"Ok\(Err\(\w+\)\)\s*=>\s*\{\s*return\s+Err\(",
+            r"Err\(_\)\s*=>\s*\{\s*return\s+Err\("))
+        guards.append(("%s_watchdog_every_ending_is_an_error" % tname, arms, "crates/%s/src/lib.rs run(): all three handle.join() arms return Err" % tname))
     for name, val, src in guards:
         out.append("(* %s *)" % src)
         out.append("Definition %s : bool := %s." % (name, "true" if val else "false"))
